@@ -31,10 +31,10 @@ type c08Stream struct{ prop string }
 func (s c08Stream) Name() string             { return "c08" }
 func (c08Stream) CaseTimeout() time.Duration { return 90 * time.Second }
 func (c08Stream) Rule() string {
-	return "K connections (1..12; plain / TLS / StartTLS) opened in two waves (reconnects after earlier ones closed), each tagged by the client, each with an in-flight state (no handler / two handlers blocked until after the ending / two handlers writing large results / two handlers just spawned when the ending arrives in the same TCP segment / one of two handlers panicking on its request goroutine) and an ending (client close, RST, Unbind, malformed frame, unsupported operation, mid-frame disconnect, read timeout, recovered panic in an inline handler, server Stop, a StartTLS request followed by bytes that are no TLS handshake), many ending concurrently; plus (from 40 cases up) one churn scenario: an early connection stays open while 70000 short connections come and go (with a moment of descriptor exhaustion half way), then 40 more bind; oracle: exactly one OnClose per accepted connection carrying the ConnectionID its requests saw, after the exit of every handler of that connection; the client sees the socket closed, but never while handlers of that connection are still blocked; all ConnectionIDs positive, stable and pairwise distinct over the server's life; goroutine and descriptor counts return to the baseline; trace replayed through the connection automaton; non-trivial = at least one connection with handlers in flight at its ending, distinct by scenario"
+	return "K connections (1..12; plain / TLS / StartTLS) opened in two waves (reconnects after earlier ones closed), each tagged by the client, each with an in-flight state (no handler / two handlers blocked until after the ending / two handlers writing large results / two handlers just spawned when the ending arrives in the same TCP segment / one of two handlers panicking on its request goroutine, one ending with runtime.Goexit) and an ending (client close, RST, Unbind, malformed frame, unsupported operation, mid-frame disconnect, read timeout, recovered panic in an inline handler, server Stop, a StartTLS request followed by bytes that are no TLS handshake, a StartTLS request followed by nothing while the server is stopped), many ending concurrently; plus (from 40 cases up) one churn scenario: an early connection stays open while 70000 short connections come and go (with a moment of descriptor exhaustion half way), then 40 more bind; oracle: exactly one OnClose per accepted connection carrying the ConnectionID its requests saw, after the exit of every handler of that connection; the client sees the socket closed, but never while handlers of that connection are still blocked; all ConnectionIDs positive, stable and pairwise distinct over the server's life; goroutine and descriptor counts return to the baseline; trace replayed through the connection automaton; non-trivial = at least one connection with handlers in flight at its ending, distinct by scenario"
 }
 
-var c08Endings = []string{"close", "rst", "unbind", "malformed", "unsupported", "midframe", "timeout", "panic", "stop", "starttlsfail"}
+var c08Endings = []string{"close", "rst", "unbind", "malformed", "unsupported", "midframe", "timeout", "panic", "stop", "starttlsfail", "starttlsstop"}
 
 func (c08Stream) Generate(rng *rand.Rand, n int, thorough bool) []Case {
 	var cs []Case
@@ -49,7 +49,7 @@ func (c08Stream) Generate(rng *rand.Rand, n int, thorough bool) []Case {
 			ending = "mixed"
 		}
 		cs = append(cs, Case{Line: fmt.Sprintf("c08 conns=%d ending=%s inflight=%s mode=%s seed=%d", k, ending,
-			[]string{"none", "blocked", "writing", "racing", "panicking"}[rng.Intn(5)], []string{"plain", "plain", "tls", "starttls"}[rng.Intn(4)], rng.Intn(1<<30)), Kind: ending})
+			[]string{"none", "blocked", "writing", "racing", "panicking", "goexit"}[rng.Intn(6)], []string{"plain", "plain", "tls", "starttls"}[rng.Intn(4)], rng.Intn(1<<30)), Kind: ending})
 	}
 	return cs
 }
@@ -248,6 +248,9 @@ func (c08Stream) Impl(c Case) string {
 				time.Sleep(30 * time.Millisecond)
 			} else if inflight == "panicking" && m.GetID() == 11 {
 				panic("handler panic injected by the harness (request goroutine)")
+			} else if inflight == "goexit" && m.GetID() == 11 {
+				// what t.FailNow / require.* do inside a handler: the goroutine ends, its deferred calls still run
+				runtime.Goexit()
 			}
 			if inflight == "blocked" {
 				<-released
@@ -391,6 +394,17 @@ func (c08Stream) Impl(c Case) string {
 					_ = x.c.send(f[:len(f)/2])
 				case "panic":
 					_ = x.c.send(Seq(Int(2, 96), P(1, 2, nil)).Ser())
+				case "starttlsstop":
+					// StartTLS accepted, no ClientHello follows; the server is stopped while the handshake waits
+					if mode == "plain" {
+						_ = x.c.send(opFrame("starttls", 94))
+						for i := 0; i < 4; i++ {
+							f, err := x.c.readFrame(2 * time.Second)
+							if err != nil || strings.HasPrefix(strictView(f), "result id=94 ") {
+								break
+							}
+						}
+					}
 				case "starttlsfail":
 					// only a plain connection can ask for StartTLS; elsewhere this ending is a plain client close
 					if mode == "plain" {
@@ -409,7 +423,7 @@ func (c08Stream) Impl(c Case) string {
 			}(x)
 		}
 		wg.Wait()
-		if ending == "stop" {
+		if ending == "stop" || ending == "starttlsstop" {
 			go sut.stop(10 * time.Second)
 			time.Sleep(20 * time.Millisecond)
 		}
@@ -439,7 +453,7 @@ func (c08Stream) Impl(c Case) string {
 		time.Sleep(30 * time.Millisecond)
 		for _, x := range ws {
 			switch x.ending {
-			case "unbind", "malformed", "unsupported", "panic", "starttlsfail":
+			case "unbind", "malformed", "unsupported", "panic", "starttlsfail", "starttlsstop":
 				for {
 					_, err := x.c.readFrame(20 * time.Millisecond)
 					if err == nil {
@@ -466,19 +480,19 @@ func (c08Stream) Impl(c Case) string {
 	case <-released:
 	default:
 	}
-	if ending != "stop" && k-half > 0 {
+	if ending != "stop" && ending != "starttlsstop" && k-half > 0 {
 		// second wave: reconnects while / after the first wave's connections end
 		runWave(half, k-half)
 	}
 	close(released)
 	all := append(first, wave...)
-	if ending == "stop" || k-half == 0 {
+	if ending == "stop" || ending == "starttlsstop" || k-half == 0 {
 		all = first
 	}
 	// every client must observe its socket closed by the server (or have closed it itself)
 	for _, x := range all {
 		switch x.ending {
-		case "starttlsfail":
+		case "starttlsfail", "starttlsstop":
 			x.c.close()
 		case "unbind", "malformed", "unsupported", "panic", "timeout":
 			deadline := time.Now().Add(10 * time.Second)
